@@ -254,6 +254,21 @@ INSERTS = [
 ]
 
 
+SHADOW_TEMPLATES = [
+    # the binder {N} of a pattern / parameter is a NEW local of its clause; the outer local `x` is read afterwards
+    "x := \"none\"\ndo\n  throw \"boom\"\ncatch String() as {N}\n  println({N})\nend\nprintln(x)\na",
+    "x := [100]\nswitch [a, a * 2]\ncase [_, _] as {N}\n  println({N}.inspect)\nend\nprintln(x.inspect)\na",
+    "x := 5\ng := |{N}: Int|: Int -> {N} + 1\nprintln(g.call(2))\nprintln(x)\na",
+    "x := \"none\"\ndo\n  do\n    throw \"in\"\n  catch String() as {N}\n    println({N})\n    throw \"out\"\n  end\ncatch String() as y\n  println(y)\nend\nprintln(x)\na",
+    "x := 7\nswitch a\ncase Int() as {N}\n  println({N} + 1)\nend\nprintln(x)\na",
+]
+
+
+def template_shadow(uid, k, name):
+    body = "\n".join("    " + l for l in SHADOW_TEMPLATES[k].replace("{N}", name).split("\n"))
+    return (f"module D{uid}\n  def f(a: Int): Int\n{body}\n  end\nend\nprintln(D{uid}.f(1))\nprintln(D{uid}.f(9))\n")
+
+
 def template(uid, pre, post, insert, at):
     """method `f` with the unused declaration inserted before (at=0) or after (at=1) `pre`"""
     parts = [insert, pre] if at == 0 else [pre, insert]
@@ -418,6 +433,10 @@ def run(ctx):
         for at in (0, 1):
             uid = f"{ctx.seed}t{900 + 2 * k + at}"
             pairs.append((f"i{k}{at}", template_init(uid + "o", "", at), template_init(uid + "e", ins, at), "insert-template", None, None))
+    # consistent renaming of a pattern / parameter binder to the name of an outer local that is read afterwards
+    for k in range(len(SHADOW_TEMPLATES)):
+        uid = f"{ctx.seed}s{k}"
+        pairs.append((f"s{k}", template_shadow(uid + "o", k, "inner"), template_shadow(uid + "e", k, "x"), "rename-template", None, None))
     # corpus pairs
     for k, (a, b) in enumerate(corpus_pairs()):
         pairs.append((f"c{k}", a, b, "corpus", None, None))
